@@ -16,6 +16,9 @@ Proof.
     + intros a Ha _. rewrite Forall_forall in HJ. destruct (HJ a Ha) as (_ & B & A). split; [exact A | exact B].
 Qed.
 
+Lemma GS_kernel_KQ C w k r hot t o : GS C w k r hot -> KQ (kernel_op k t o).
+Proof. intros G. apply kernel_op_KQ. exact (GS_KQ _ _ _ _ _ G). Qed.
+
 (* a TO whose FROM was delivered by an earlier read of the block is the first event of its read and that FROM the last
    event before it (the kernel queues the two halves of a rename back to back) *)
 Definition cut_paired (C : cfg) (t : fs) (r : rstate) (k : kst) (cuts : list nat) : Prop :=
@@ -121,4 +124,33 @@ Proof.
     as (h & s' & obs & hot' & Hh & Hr & S' & T).
   { rewrite Eo, Ew. cbn. now apply TInv_init. }
   exists h, s', obs, hot'. split; [exact Hh|]. split; [exact Hr|]. split; [exact S'|]. now apply TInv_tree_eq.
+Qed.
+
+(* ---------------------------------------------------------------- non-vacuity *)
+(* reading everything in one read is a good cutter (then the theorems above are the one-read theorems) *)
+Lemma good_cutter_whole P : good_cutter P (fun s o => [length (k_queue (kernel_op (p_k s) (w_fs (p_world s)) o))]).
+Proof.
+  intros s hot o w' _ _ _. split; [cbn; lia|]. unfold cut_paired. cbn [rcut].
+  destruct (read_batch _ _ _ _) as [[[r1 k1] evs]|]; [|exact I]. cbn [cuts_ok]. split; [|exact I].
+  intros b1 t b2 c _ _. left. intros f [].
+Qed.
+
+(* mkdir R/a (one read); mv R/a R/b with the cut between IN_MOVED_FROM and IN_MOVED_TO, against one big read *)
+Definition hcut : list action :=
+  [AOp (Mkdir (sub pR 97)); ARead 1; ATick 5; AEmit;
+   AOp (Rename (sub pR 97) (sub pR 98)); ARead 1; ARead 1; ATick 5; AEmit; AEmit].
+Definition hbig : list action :=
+  [AOp (Mkdir (sub pR 97)); ARead 1; ATick 5; AEmit;
+   AOp (Rename (sub pR 97) (sub pR 98)); ARead 2; ATick 5; AEmit; AEmit].
+
+Lemma cut_rename_example :
+  exists s0 sc sb oc ob, pinit (Px true) w0 = Some s0 /\
+    prun (Px true) s0 hcut [] = Done (sc, oc) /\ prun (Px true) s0 hbig [] = Done (sb, ob) /\
+    p_out sc = p_out sb /\ p_r sc = p_r sb /\ p_k sc = p_k sb /\
+    In {| ev_cls := DirMoved; ev_src := sub pR 97; ev_dest := sub pR 98; ev_synth := false |} (p_out sc) /\
+    k_queue (p_k sc) = [] /\ Cover (cfgx true true) (w_fs (p_world sc)) (p_k sc) (p_r sc).
+Proof.
+  eexists _, _, _, _, _. split; [vm_compute; reflexivity|]. split; [vm_compute; reflexivity|]. split; [vm_compute; reflexivity|].
+  split; [reflexivity|]. split; [reflexivity|]. split; [reflexivity|]. split; [vm_compute; tauto|]. split; [reflexivity|].
+  apply coverb_spec. vm_compute. reflexivity.
 Qed.
